@@ -34,6 +34,8 @@ pub(crate) struct Parser<'tokens> {
 
 impl<'tokens> Parser<'tokens> {
     pub(crate) fn new(tokens: &'tokens Tokens, input: &'tokens str) -> Self {
+        #[cfg(capy_verif)]
+        crate::verif::reset(tokens.len());
         Self {
             tokens,
             input,
@@ -198,6 +200,8 @@ impl<'tokens> Parser<'tokens> {
     }
 
     pub(crate) fn start(&mut self) -> Marker {
+        #[cfg(capy_verif)]
+        crate::verif::tick();
         let pos = self.events.len();
         self.events.push(None);
 
@@ -269,6 +273,8 @@ impl<'tokens> Parser<'tokens> {
     }
 
     pub(crate) fn bump(&mut self) {
+        #[cfg(capy_verif)]
+        crate::verif::tick();
         self.clear_expected_syntaxes();
         self.events.push(Some(Event::AddToken));
         self.token_idx += 1;
@@ -334,6 +340,8 @@ impl<'tokens> Parser<'tokens> {
     }
 
     fn peek_raw(&self) -> Option<TokenKind> {
+        #[cfg(capy_verif)]
+        crate::verif::tick();
         self.tokens.get_kind(self.token_idx)
     }
 
